@@ -10,10 +10,11 @@ A change of a literal in the Rust that matters breaks one of these.
 -/
 import LolHtml.Lemmas.EscComment
 import LolHtml.Lemmas.EscNames
+import LolHtml.Lemmas.EscUnescape
 
 namespace LolHtml.Thm.C08
 open LolHtml LolHtml.Model.Esc LolHtml.Spec.Esc LolHtml.Spec.Esc.CommentEnd
-open LolHtml.Lemmas.Esc LolHtml.Lemmas.EscComment LolHtml.Lemmas.EscNames
+open LolHtml.Lemmas.Esc LolHtml.Lemmas.EscComment LolHtml.Lemmas.EscNames LolHtml.Lemmas.EscUnescape
 
 /-! ## Side-conditions on the constants extracted from the Rust (re-evaluated on every run) -/
 
@@ -25,6 +26,7 @@ theorem side_body_prefix_free : prefixFree bodyTable = true := by decide
 theorem side_attr_repl_nonempty : replNonempty attrTable = true := by decide
 theorem side_attr_avoids_quote : avoids attrTable 34 = true := by decide
 theorem side_attr_prefix_free : prefixFree attrTable = true := by decide
+theorem side_attr_entities_clean : entitiesClean attrTable = true := by decide
 theorem side_attr_serialise : Gen.Consts.attrOpen = [61, 34] ∧ Gen.Consts.attrClose = [34] := by decide
 theorem side_comment_covers : coversRef Gen.Consts.commentContains Gen.Consts.commentPrefixes = true := by decide
 theorem side_comment_all_close : allClose Gen.Consts.commentContains Gen.Consts.commentPrefixes = true := by decide
@@ -110,6 +112,39 @@ theorem C08_attr_value_no_quote (v out : Bytes) (h : escapeDoubleQuotesOnly v = 
   rw [(C08_escape_loops_total v).2] at h
   cases h
   exact not_mem_escapeSpec side_attr_avoids_quote v
+
+/-- `&` is deliberately not escaped in attribute values ("The value may have HTML/XML entities",
+element.rs:212), so decoding `&quot;` gives back `v` only up to the `&quot;` that `v` already
+contained. Universally: escaping is invisible to the decoder — the parser sees in the written value
+exactly the entities that the caller put into `v`, plus `v`'s own `"` bytes. -/
+theorem C08_attr_value_transparent (v out : Bytes) (h : escapeDoubleQuotesOnly v = some out) :
+    unescapeWith (EscTable.entities attrTable) out = unescapeWith (EscTable.entities attrTable) v := by
+  rw [(C08_escape_loops_total v).2] at h
+  cases h
+  exact unescape_escapeSpec_transparent side_attr_entities_clean side_attr_prefix_free v
+
+/-- `unescape ∘ escape = id` on every value that does not already contain the text `&quot;`. -/
+theorem C08_attr_value (v out : Bytes) (h : escapeDoubleQuotesOnly v = some out)
+    (hv : ¬ [38, 113, 117, 111, 116, 59] <:+: v) :
+    (34 : UInt8) ∉ out ∧ unescapeWith (EscTable.entities attrTable) out = v := by
+  refine ⟨C08_attr_value_no_quote v out h, ?_⟩
+  rw [C08_attr_value_transparent v out h]
+  apply unescape_of_no_entity
+  intro e he
+  rw [side_attr_entities] at he
+  simp only [List.mem_singleton] at he
+  subst he
+  exact hv
+
+/-- The hypothesis of `C08_attr_value` cannot be dropped: the value `&quot;` is written unchanged and
+is read back by an entity-decoding parser as `"`. (Documented behaviour, not a structural break.) -/
+theorem C08_attr_value_roundtrip_counterexample :
+    escapeDoubleQuotesOnly [38, 113, 117, 111, 116, 59] = some [38, 113, 117, 111, 116, 59] ∧
+    unescapeWith (EscTable.entities attrTable) [38, 113, 117, 111, 116, 59] = [34] := by decide
+
+example : escapeDoubleQuotesOnly [97, 34, 38, 34] = some [97, 38, 113, 117, 111, 116, 59, 38, 38, 113, 117, 111, 116, 59] ∧
+    unescapeWith (EscTable.entities attrTable) [97, 38, 113, 117, 111, 116, 59, 38, 38, 113, 117, 111, 116, 59]
+      = [97, 34, 38, 34] := by decide
 
 /-! ## C08_comment -/
 
